@@ -290,22 +290,51 @@ def _run_j(case):
   saved_fin = phase_executor.PhaseExecutorThread.__dict__.get('_thread_finished')
   hdur = case.get('h', 0)
   try:
-    if hdur:
+    if hdur and not case.get('exc'):
       # the designated override point "called once _thread_proc has finished" takes hdur of virtual time
       vt = sched.VTime()
       phase_executor.PhaseExecutorThread._thread_finished = (
           lambda self: vt.sleep(hdur / U) if self._phase_desc.name == 'p1' else None)
     phase_executor._JOIN_TRY_INTERVAL_SECONDS = (case['interval'] / U) if case['interval'] is not None else ec.ORIG_JOIN_INTERVAL
     d = case['d']
-    a = {'t': 'P', 'id': 1, 'opts': {}, 'beh': [{'raw': 'cont', 'sleep': (d / U) if d is not None else 1e7}]}
+    a = {'t': 'P', 'id': 1, 'opts': {}, 'beh': [{'raw': 'exc' if case.get('exc') else 'cont', 'sleep': (d / U) if d is not None else 1e7}]}
     if case['timeout'] is not None:
       a['timeout_s'] = case['timeout'] / U
     test = {'nodes': [_P(3), {'t': 'G', 's': [], 'm': [a], 'td': [_P(2)]}]}
-    out = sched_exec.run_case(test, choose=_chooser(case), prepare=lambda env: setattr(env['ctx'], 'record_times', True),
-                              max_steps=400000)
+    slow = None
+    if case.get('exc') and hdur:
+      # the body raised (its result is the exception); reporting it through a slow log handler takes hdur
+      import logging as _logging
+      vt2 = sched.VTime()
+
+      class Slow(_logging.Handler):
+        def createLock(self):
+          self.lock = None
+
+        def emit(self, record):
+          # (only for a thread of THIS run: a body abandoned by an earlier case of the worker process may still log)
+          if 'raised an exception' in record.getMessage() and not getattr(self, 'done', False) and \
+              sched.SCHED is not None and sched.SCHED.me() is not None:
+            self.done = True
+            vt2.sleep(hdur / U)
+      slow = Slow()
+      _root = _logging.getLogger('openhtf')
+      _saved_level, _saved_disabled = _root.level, _root.disabled
+      _root.setLevel(_logging.DEBUG)
+      _root.disabled = False
+      _root.addHandler(slow)
+    try:
+      out = sched_exec.run_case(test, choose=_chooser(case), prepare=lambda env: setattr(env['ctx'], 'record_times', True),
+                                max_steps=400000, enable_logging=bool(slow))
+    finally:
+      if slow is not None:
+        _root.removeHandler(slow)
+        _root.setLevel(_saved_level)
+        _root.disabled = _saved_disabled
+        _logging.disable(_logging.CRITICAL)      # as the other cases of this worker process expect it
   finally:
     phase_executor._JOIN_TRY_INTERVAL_SECONDS = saved
-    if hdur:
+    if hdur and not case.get('exc'):
       if saved_fin is None:
         del phase_executor.PhaseExecutorThread._thread_finished
       else:
@@ -315,7 +344,8 @@ def _run_j(case):
   p1 = [t for t in out['tokens'] if t.startswith('p1:')]
   res = '?'
   if p1:
-    res = 'timeout' if ':timeout' in p1[0] else ('own' if p1[0].startswith('p1:PASS:cont') else p1[0])
+    res = 'timeout' if ':timeout' in p1[0] else (
+        'own' if p1[0].startswith('p1:PASS:cont') or (case.get('exc') and p1[0].startswith('p1:ERROR:exc')) else p1[0])
   tret = None if (t0 is None or t1 is None) else (t1 - t0) * U
   facts = []
   if out['deadlock']:
@@ -507,6 +537,11 @@ def gen_cases(rng, tier):
         # the thread outlives its body (handlers take time): the deadline / a poll instant falls in between
         for h in (1, 2, interval, interval + 1):
           cases.append({'kind': 'J', 'timeout': timeout, 'interval': interval, 'd': d, 'h': h})
+  # a body that raises before its deadline while reporting the exception (logging) is still going on at the deadline
+  for timeout, interval in [(16, 4), (17, 4), (40, 16)]:
+    for d in (timeout - 3, timeout - 1):
+      for h in (2, 5, interval + 1):
+        cases.append({'kind': 'J', 'timeout': timeout, 'interval': interval, 'd': d, 'h': h, 'exc': True})
   # the default timeout (DEFAULT_PHASE_TIMEOUT_S) with the real poll interval
   for d in [16, 179 * 16, 180 * 16 - 1, 180 * 16, 180 * 16 + 1, 183 * 16, 184 * 16, None]:
     cases.append({'kind': 'J', 'timeout': None, 'interval': None, 'd': d})
